@@ -209,7 +209,10 @@ def run(ctx):
             nid += 1
     opts = dict(residual_all=thorough, simplify_timeout=30.0)
     tasks = []
-    tasks += _chunks(trees + mtrees + rtrees, envs2, NCPU * 8, ctx.seed, operators=True, grammar=True, opts=opts,
+    # the mixed-signs family is about rounding: its strings go to the parser in one form only (quick tier)
+    tasks += _chunks(mtrees, envs2, NCPU * 4, ctx.seed + 4, operators=True, grammar=True, opts=opts, all_styles=thorough,
+                     one_text=not thorough)
+    tasks += _chunks(trees + rtrees, envs2, NCPU * 6, ctx.seed, operators=True, grammar=True, opts=opts,
                      all_styles=thorough)
     tasks += _chunks(strees, envs1, NCPU * 2, ctx.seed + 3, operators=True, grammar=True, opts=opts, all_styles=thorough)
     tasks += _chunks(gtrees, envs2, NCPU * 2, ctx.seed + 1, operators=False, grammar=True, all_styles=thorough)
